@@ -43,6 +43,11 @@ def histories(rng, tier):
             st = gen.random_state(rng, n) if k == 3 else [complex((1 << n) ** -0.5, 0)] * (1 << n)
             hs.append((rng.randrange(1 << 30), [("raw", n, st), ("threads", k), ("dump",), ("probs",),
                                                 ("samplestats", 1 << 20, 60 if tier == "quick" else 300)]))
+    # registers with a past (grown, shrunk, regrown, multiplied from smaller ones, measured before): reported
+    # probabilities, measurement frequencies and the histogram's expectation
+    hs += regcheck.lifecycle_histories(rng, tier, lambda r, n: [("dump",), ("probs",), ("freq", shots // 2, (1 << n) - 1),
+                                                                 ("samplestats", 20000, 30 if tier == "quick" else 200)],
+                                       sizes=(1, 2, 3, 4))
     return hs
 
 
@@ -76,7 +81,8 @@ def oracle(acts, recs):
     for r in recs:
         if r[0] == "d":
             n, v = r[1], r[2]
-            tot = sum(abs(z) ** 2 for z in v)
+            # Born rule over the register's own 2^n states (a padding cell is not a basis state)
+            tot = sum(abs(z) ** 2 for z in v[:1 << n])
             p = [abs(z) ** 2 / tot for z in v[:1 << n]]
         elif r[0] == "p":
             if not vec_close(r[1], p, 1e-9):
